@@ -482,14 +482,18 @@ def rand_survey(rng, grid, hs, org, nsrc, nrec, nfreq, with_data):
     return survey, pattern
 
 
-def gen_sim_case(rng, thorough, grad):
+SIM_METHODS = ['receiver', 'cylinder', 'source', 'prism', 'midpoint', 'cylinder']
+
+
+def gen_sim_case(rng, thorough, grad, k=0):
     import emg3d
-    grid, hs, org = rand_grid(rng, (5, 5, 4), (1, 1, 2))
+    # methods round-robin; two of three rounds on laterally varying models with >= 2 x 2 columns
+    li = (k // len(SIM_METHODS)) % 3 == 2
+    grid, hs, org = rand_grid(rng, (5, 5, 4), (1, 1, 2) if li else (2, 2, 2))
     mapping = rng.choice(MAPS)
-    li = rng.random() < 0.3
     model, kw, mapping, case = rand_model(rng, grid, mapping=mapping, layered_ok=True,
                                           lateral_invariant=li)
-    method = rng.choice(['midpoint', 'source', 'receiver', 'prism', 'cylinder', 'cylinder'])
+    method = SIM_METHODS[k % len(SIM_METHODS)]
     lopts = {'method': method}
     if method in ('prism', 'cylinder'):
         lopts['ellipse'] = rand_ellipse(rng, hs)
@@ -782,7 +786,7 @@ def compare_grad(c, answers, dis):
 
 def run_sims(ctx, n, ngrad, dis, hist):
     rng = ctx.rng
-    cases = [gen_sim_case(rng, ctx.thorough, grad=(k < ngrad)) for k in range(n)]
+    cases = [gen_sim_case(rng, ctx.thorough, grad=(k < ngrad), k=k) for k in range(n)]
     per = 4
     files = []
     for f0 in range(0, n, per):
@@ -838,7 +842,7 @@ def run_sims(ctx, n, ngrad, dis, hist):
 def correspondence(ctx):
     dis, hist = [], {}
     nx = 400 if ctx.thorough else 120
-    ns = 60 if ctx.thorough else 20
+    ns = 72 if ctx.thorough else 24
     ngr = 20 if ctx.thorough else 6
     done, dx, xs = run_extract(ctx, nx, dis, hist)
     nsim, triples, ng, dsim, ss = run_sims(ctx, ns, ngr, dis, hist)
